@@ -143,6 +143,13 @@ def check_grid(case):
             hn = kw.get('holes_number_' + nm)
             if hn is not None and not (kw.get('unit_size_min') and kw.get('unit_size_max')) and len(st) < hn:
                 return ('grid-count', '%d hole layers along %s' % (len(st), nm), 'at least holes_number_%s = %d' % (nm, hn))
+            # "ratio of the mask holes to the unit size (same for all spatial dimensions)": along each axis a hole is
+            # int(unit * ratio) voxels long, at least 1 and at most unit - 1, cut only by the end of the frame
+            size = min(max(int(unit * kw.get('ratio', 0.5)), 1), unit - 1)
+            for h in live:
+                if h[a + 3] - h[a] != min(size, n - h[a]):
+                    return ('hole-size', 'hole %s is %d voxels long along %s' % (h, h[a + 3] - h[a], nm),
+                            '%d voxels (unit %d, ratio %s), cut only by the frame end %d' % (size, unit, kw.get('ratio', 0.5), n))
         starts.append(st)
     if len(live) != len(set(live)) or len(set(live)) != len(starts[0]) * len(starts[1]) * len(starts[2]):
         return ('grid-product', '%d non-empty holes' % len(set(live)), 'all %d x %d x %d combinations' % tuple(len(q) for q in starts))
